@@ -31,6 +31,7 @@ ASSUMPTIONS = [
 REQUIRED_HOOKS = ["running_snapshots", "polls", "bodies", "blocked_outcomes_checked", "schedules"]
 
 PATHS = ["direct", "par_single", "par_batch", "retry"]
+ALL_PATHS = PATHS + ["other_task"]   # the same arguments submitted to a different task (a different key in every mode)
 
 
 def WORKERS(tier):
@@ -94,6 +95,7 @@ class World:
             opts["key_arguments"] = self.keys
         self.task = self.app.task(basic.probed_keyed, **opts)
         self.task_single = self.task  # parallelize with one element never batches
+        self.task2 = self.app.task(basic.probed_keyed2, **opts)
         basic.ATTEMPTS.clear()
         self.inv_args = {}
         self.inv_key = {}      # invocation id -> model key
@@ -129,10 +131,12 @@ class World:
         elif path == "retry":
             invs = [t(args["k"], args["v"])]
             self.retry_left[invs[0].invocation_id] = 1
+        elif path == "other_task":
+            invs = [self.task2(args["k"], args["v"])]
         else:
             raise ValueError(path)
         for inv in invs:
-            self.inv_key[inv.invocation_id] = key_of(self.mode, self.keys, args)
+            self.inv_key[inv.invocation_id] = (("other-task",) if path == "other_task" else ()) + key_of(self.mode, self.keys, args)
             self.inv_path[inv.invocation_id] = path
             self.inv_args[inv.invocation_id] = args
         return [i.invocation_id for i in invs]
@@ -237,6 +241,12 @@ class World:
         prev_inv = context.get_dist_invocation_context(app.app_id)
         set_thread_ctx(app, ctx)
         context.swap_dist_invocation_context(app.app_id, None)
+        holders_before = {}
+        if self.sc is None:
+            # sequential harness (nobody else polls meanwhile): who holds which key while this poll runs
+            for i_, k_ in self.inv_key.items():
+                if self.status(i_) in ("PENDING", "RUNNING"):
+                    holders_before.setdefault(k_, set()).add(i_)
         try:
             try:
                 invs = list(app.orchestrator.get_invocations_to_run(k, ctx))
@@ -247,6 +257,22 @@ class World:
                                "witness": {"backend": self.backend, "mode": self.mode, "reroute": self.reroute, "statuses_present": statuses}})
                 return
             self.log.add("poll_end", runner=ctx.runner_id, got=[i.invocation_id for i in invs])
+            if self.sc is None:
+                # a poll hands out at most one invocation per key, and none whose key is held (PENDING / RUNNING) by another invocation throughout the poll
+                got_keys = {}
+                for x in invs:
+                    xid = x.invocation_id
+                    kx = self.inv_key.get(xid)
+                    if kx is None:
+                        continue
+                    self.hooks["handed_out_checked"] += 1
+                    still = {h for h in holders_before.get(kx, ()) if h != xid and self.status(h) in ("PENDING", "RUNNING")}
+                    if still or kx in got_keys:
+                        self.V.append({"sig": f"blocked-invocation-handed-out:{self.status(xid) if False else self.inv_path.get(xid)}",
+                                       "what": f"the poll handed out invocation {xid[:8]} (path {self.inv_path.get(xid)}) although key {kx} is held by "
+                                               f"{sorted(h[:8] for h in still) or [got_keys[kx][:8] + ' (same poll)']}",
+                                       "witness": {"backend": self.backend, "mode": self.mode, "reroute": self.reroute, "path": self.inv_path.get(xid)}})
+                    got_keys.setdefault(kx, xid)
             for inv in invs:
                 try:
                     inv.run(ctx)
@@ -331,7 +357,7 @@ def plan_submissions(rng, n=None):
     n = n or rng.randint(2, 6)
     subs = []
     for _ in range(n):
-        subs.append((rng.choice(PATHS), {"k": rng.choice(["a", "a", "b"]), "v": rng.choice([1, 1, 2])}))
+        subs.append((rng.choice(ALL_PATHS), {"k": rng.choice(["a", "a", "b"]), "v": rng.choice([1, 1, 2])}))
     return subs
 
 
